@@ -283,7 +283,7 @@ class Runner:
 
         def work(job):
             ent, eng, o, q, q1 = job
-            cap = min(self.cap, 10.0) if o["kind"] in ("ub", "def", "mem") else None
+            cap = min(self.cap, 10.0) if o["kind"] in ("ub", "def", "mem") else ent.cap
             v, who, secs, answers = pf.solve_text(q["txt"], q["txt_cvc5"], q["tag"], cap=cap)
             used_defs = False
             if v != "unsat" and q1 is not None:
